@@ -43,12 +43,16 @@ def as_i64(v):
 # template: name, header (with NAME placeholder), body, params: list of kinds, alphabet of argument tuples,
 #           call spelling given tuple, model(tuple) -> int, subst(tuple) -> (mono header, mono body, call args)
 class Template:
-    def __init__(self, name, cparams, rparams, ret, body, alphabet, model, uses=()):
+    def __init__(self, name, cparams, rparams, ret, body, alphabet, model, uses=(), order=None):
         self.name, self.cparams, self.rparams, self.ret, self.body = name, cparams, rparams, ret, body
         self.alphabet, self.model, self.uses = alphabet, model, uses
+        # declaration order of the parameters (default: comptime parameters first)
+        self.order = order or [n for n, _ in cparams] + [n for n, _ in rparams]
 
     def generic_decl(self, fname, prefix=""):
-        ps = [f"comptime {n}: {k}" for n, k in self.cparams] + [f"{n}: {t}" for n, t in self.rparams]
+        decl = {n: f"comptime {n}: {k}" for n, k in self.cparams}
+        decl.update({n: f"{n}: {t}" for n, t in self.rparams})
+        ps = [decl[n] for n in self.order]
         body = self.body
         for u in self.uses:
             body = body.replace(f"@{u}(", f"{prefix}{u}(")
@@ -78,7 +82,12 @@ class Template:
         return f"{fname} :: ({', '.join(ps)}) -> {rep(self.ret)} {{ {body} }}"
 
     def call(self, fname, tup):
-        return f"{fname}({', '.join(str(a) for a in tup)})"
+        names = [n for n, _ in self.cparams] + [n for n, _ in self.rparams]
+        if len(tup) != len(names):
+            # varargs: the tuple is already in declaration order
+            return f"{fname}({', '.join(str(a) for a in tup)})"
+        vals = dict(zip(names, tup))
+        return f"{fname}({', '.join(str(vals[n]) for n in self.order)})"
 
     def mono_call(self, fname, tup):
         return f"{fname}({', '.join(str(a) for a in tup[len(self.cparams):])})"
@@ -152,6 +161,10 @@ TEMPLATES = {
     "dist": Template("dist", [("T", "type")], [("v", "T")], "i32", "i32.(v) + 1",
                      [("Dm", "Dm.(5)"), ("i32", "6"), ("Dm", "Dm.(-9)"), ("i16", "300")],
                      lambda t: {"Dm.(5)": 6, "6": 7, "Dm.(-9)": -8, "300": 301}[t[1]]),
+    "mixed": Template("mixed", [("n", "usize"), ("T", "type")], [("a", "i64"), ("b", "i64")], "i64",
+                      "arr : [n]T; i := 0; while i < n { arr[i] = T.(a); i += 1; } t : i64 = b; i = 0; while i < n { t = t + i64.(arr[i]); i += 1; } t",
+                      [(2, "u8", 300, 1), (3, "i64", 300, 1), (0, "i16", 5, 7), (1, "i8", 200, 0)],
+                      lambda t: t[3] + t[0] * wrap(t[1], t[2]), order=["a", "n", "b", "T"]),
     "two": Template("two", [("A", "type"), ("B", "type"), ("n", "usize")], [("a", "A"), ("b", "B")], "i64",
                     "x : [n]A; y : [n]B; i64.(x.len + y.len) + i64.(a) + i64.(b)",
                     [("u8", "i64", 2, 3, 4), ("i64", "u8", 2, 3, 4), ("u8", "u8", 1, 250, 5), ("i16", "i32", 0, -1, -2)],
